@@ -2,3 +2,8 @@
 ;@ghost idxins (Array Int Int)
 ;@ghost idxdel (Array Int Int)
 ;@ghost idxupd (Array Int Bool)
+; which table the rows held by a rebuild were scanned from (planT: table id of a scan plan node; scanT: table id the last executed scan read)
+;@ghost planT (Array Int Int)
+;@ghost scanT Int
+; wrote[b] = the B-tree index object b wrote its container state to its pages during this shutdown
+;@ghost wrote (Array Int Bool)
